@@ -106,7 +106,20 @@ fn parse_reconf(s: &str) -> Reconf {
 
 fn gen(rng: &mut Rng) -> CaseC22 {
     let spec = random_spec(rng, true);
-    let mut case = gen_case(rng, spec, 5);
+    // programs must not be able to observe or pay the beneficiary (its balance differs between
+    // the twins by design): no fee-party literals, no COINBASE/ORIGIN/CALLER results, no raw bytes
+    let mut f = Features::swarm(rng, spec);
+    f.fee_parties = false;
+    f.env = false;
+    f.raw = false;
+    let mut case = gen_case_with(rng, spec, 5, &f);
+    // and no balance near 2^256-1: a credit that wraps in one twin and not in the other is the
+    // overflow recorded under C08
+    for a in case.world.accounts.values_mut() {
+        if a.balance > (U256::from(1u8) << 200) {
+            a.balance = U256::from(1u8) << 120;
+        }
+    }
     // a non-zero reward: price above base fee, dedicated beneficiary
     case.block.coinbase = COINBASE;
     case.world.accounts.insert(COINBASE, Acct { balance: U256::from(rng.below(1000)), ..Default::default() });
